@@ -28,7 +28,7 @@ def cases(tier, seed):
     import random
     r = random.Random(seed)
     cs = []
-    sizes = list(range(0, 200)) + [r.randrange(200, 4097) for _ in range(60 if tier == 'quick' else 1500)] + [4096, 4095, 4094, 48 * 20, 48 * 20 + 1]
+    sizes = list(range(0, 200)) + [r.randrange(200, 4097) for _ in range(60 if tier == 'quick' else 6000)] + [4096, 4095, 4094, 48 * 20, 48 * 20 + 1]
     for i in range(0, len(sizes), 12):
         cs.append({'t': 'msgsizes', 'sizes': sizes[i:i + 12], 'pat': ['zero', 'ff', 'rand'][(i // 12) % 3], 'seed': seed})
     for kind in ('pub', 'priv', 'sig', 'clear', 'msg'):
@@ -39,7 +39,7 @@ def cases(tier, seed):
     # corruption sweeps: three blocks, split in position ranges
     for blk in ('sig', 'msg', 'pub'):
         for part in range(8):
-            cs.append({'t': 'corrupt', 'blk': blk, 'part': part, 'of': 8, 'reps': 4 if tier == 'quick' else 12})
+            cs.append({'t': 'corrupt', 'blk': blk, 'part': part, 'of': 8, 'reps': 4 if tier == 'quick' else 63})
     cs.append({'t': 'crc_leading_zero', 'seed': seed})
     return cs
 
